@@ -47,6 +47,45 @@ theorem bus_refines_cursor_spec_from (src : Nat → α) (s : St α) (hi : Inv sr
     ∀ tr, run src s ops = some tr → ∀ r ∈ tr, Inv src r.2 :=
   run_refines src ops s hi hf hlen
 
+/-- **Sentence 1, trace form** ("each output observes exactly the contiguous run of source frames that
+    begins with the first frame nobody had pulled when it was attached, in order, without loss or
+    duplication"). Attach an output in ANY state satisfying the invariant (every reachable state does)
+    and continue with ANY operation sequence `post` that the bus can execute: the frames this output's
+    `next` calls return, in order, are exactly `src P, src (P+1), …, src (P+n−1)` where `P` is the number
+    of frames pulled from the source at the moment of `send` and `n` the number of `next` calls on it in
+    `post` (however they interleave with other outputs' operations, sends and drops). -/
+theorem output_observes_contiguous_run (src : Nat → α) (s : St α) (hi : Inv src s) (hf : Fresh s)
+    (post : List Op) (hn : s.nextKey + (post.length + 1) < usizeMod)
+    (tr : List (Ret α × St α)) (h : run src s (.send :: post) = some tr) :
+    ∃ s' tr', tr = (.key s.nextKey, s') :: tr' ∧
+      received s.nextKey post tr' =
+        (List.range' s.pos (post.count (.next s.nextKey))).map src := by
+  obtain ⟨href, _⟩ := run_refines src (.send :: post) s hi hf (by simpa using hn)
+  rw [h] at href
+  simp only [Option.map] at href
+  -- shape of the concrete run
+  simp only [run, step] at h
+  cases hr : run src (send s).2 post with
+  | none => simp [hr] at h
+  | some tr' =>
+    simp only [hr, Option.some.injEq] at h
+    subst h
+    refine ⟨(send s).2, tr', rfl, ?_⟩
+    -- the abstract run from the state right after `send`
+    simp only [Abs.run, Abs.step, absOf] at href
+    have hmod : (s.nextKey + 1) % usizeMod = s.nextKey + 1 := Nat.mod_eq_of_lt (by omega)
+    generalize hra : Abs.run src _ post = ar at href
+    cases ar with
+    | none => simp at href
+    | some atr =>
+      simp only [Option.some.injEq, List.map_cons, List.cons.injEq] at href
+      obtain ⟨_, htl⟩ := href
+      obtain ⟨i1, _⟩ := Abs.received_run src s.nextKey post _ atr hra
+        (by simp only [hmod]; omega) (by simp only [hmod]; omega)
+      have := i1 s.pos (by simp)
+      rw [← htl] at this
+      exact (received_map absOf s.nextKey post tr').symm.trans this
+
 /-! ## The three operations, from every state satisfying the invariant -/
 
 /-- "begins with the first frame nobody had pulled when it was attached": `send` registers the new output
@@ -179,6 +218,9 @@ example : (((dropOutput exState 1).bind (dropOutput · 0)).bind (dropOutput · 2
 example : (run (fun i => i) (init : St Nat) [.send, .send, .next 0, .next 1]).map
     (fun tr => tr.map fun r => (r.2.pos, r.2.buf, cursor r.2 0, cursor r.2 1)) =
     some [(0, [], some 0, none), (0, [], some 0, some 0), (1, [0], some 1, some 0), (1, [], some 1, some 1)] := by decide
+-- `received`: in the example run output 0 got 100,101,102, output 1 got 100, output 2 (attached at P = 3) got 103
+example : (run (fun i => 100 + i) (init : St Nat) exOps).map (fun tr => (received 0 exOps tr, received 1 exOps tr, received 2 exOps tr)) =
+    some ([100, 101, 102], [100], [103]) := by decide
 -- operations on an output that is not live are the (only) failing ones
 example : run (fun i => i) (init : St Nat) [.send, .drop 0, .next 0] = none := by decide
 
